@@ -152,6 +152,8 @@ func (c *Calcium) withNodesLocked(ctx context.Context, nodeFilter *types.NodeFil
 	if err != nil {
 		return err
 	}
+	// take the locks in ascending key order, so that all operations lock in one global order
+	sort.SliceStable(ns, func(i, j int) bool { return genKey(ns[i]) < genKey(ns[j]) })
 
 	var lock lock.DistributedLock
 	for _, n := range ns {
